@@ -15,7 +15,7 @@ From V Require Import Gen.NodesXml Model.Xml Spec.XmlLex.
 From V Require Import Gen.Cli Model.CliModel Spec.CliDoc.
 From V Require Import Gen.Tagfilter Model.Tagfilter Spec.GfmFilter.
 From V Require Import Spec.Shape.
-From V Require Import Gen.CmGen Model.Cm.
+From V Require Import Gen.CmGen Model.Cm Spec.CmSpec.
 Extraction Language OCaml.
 Set Extraction KeepSingleton.
 
@@ -163,4 +163,7 @@ Extraction "model.ml"
   Cm.shortest_unused_sequence
   Cm.longest_char_sequence
   Cm.scheme_matches
+  CmSpec.cm_shape
+  CmSpec.cm_no_ol_overflow
+  CmSpec.has_run
 .
